@@ -4,6 +4,7 @@ package main
 // in declaration order) and the "type" literal of every record kind, the channel size.
 
 import (
+	"path/filepath"
 	"fmt"
 	"go/ast"
 	"go/token"
@@ -38,7 +39,20 @@ func c17StructFacts(n ast.Node, what string) c17RecFacts {
 			return true
 		}
 		found = true
+		var flat []*ast.Field
 		for _, f := range st.Fields.List {
+			if len(f.Names) == 0 {
+				// an embedded struct of the package: encoding/json promotes its fields in place
+				if id, ok := f.Type.(*ast.Ident); ok {
+					if est := c17NamedStruct(id.Name); est != nil {
+						flat = append(flat, est.Fields.List...)
+						continue
+					}
+				}
+			}
+			flat = append(flat, f)
+		}
+		for _, f := range flat {
 			tag := ""
 			if f.Tag != nil {
 				if s, err := strconv.Unquote(f.Tag.Value); err == nil {
@@ -57,11 +71,18 @@ func c17StructFacts(n ast.Node, what string) c17RecFacts {
 				out.fields = append(out.fields, [2]string{t, ty})
 			}
 		}
+		// the record's type name: the first string literal among the element expressions (directly, or as an argument of a
+		// constructor call that fills the leading fields)
 		for _, e := range cl.Elts {
-			if bl, ok := e.(*ast.BasicLit); ok && bl.Kind == token.STRING {
-				out.typeName, _ = strconv.Unquote(bl.Value)
+			if out.typeName != "" {
 				break
 			}
+			ast.Inspect(e, func(y ast.Node) bool {
+				if bl, ok := y.(*ast.BasicLit); ok && bl.Kind == token.STRING && out.typeName == "" {
+					out.typeName, _ = strconv.Unquote(bl.Value)
+				}
+				return out.typeName == ""
+			})
 		}
 		return false
 	})
@@ -69,6 +90,28 @@ func c17StructFacts(n ast.Node, what string) c17RecFacts {
 		fail("%s: no anonymous struct literal found for %s", c17DecodeRel, what)
 	}
 	return out
+}
+
+// c17NamedStruct: `type <name> struct {…}` declared in the package of decode.go
+func c17NamedStruct(name string) *ast.StructType {
+	for _, file := range pkgFiles(filepath.Dir(c17DecodeRel)) {
+		f := parseQuiet(file)
+		if f == nil {
+			continue
+		}
+		for _, d := range f.Decls {
+			if gd, ok := d.(*ast.GenDecl); ok && gd.Tok == token.TYPE {
+				for _, sp := range gd.Specs {
+					if ts, ok := sp.(*ast.TypeSpec); ok && ts.Name.Name == name {
+						if st, ok := ts.Type.(*ast.StructType); ok {
+							return st
+						}
+					}
+				}
+			}
+		}
+	}
+	return nil
 }
 
 // c17ScoreType: `type zsetScore T` and the string constants inside `func (zsetScore) MarshalJSON` (written as
